@@ -28,7 +28,7 @@ CHECKS = {
    technique="deterministic simulation: confined storage-fault injection + scripted delivery, alignment invariant after every parse against an independent length walk, seeded search, replay files"),
  "C05": dict(
    level="fault_enumeration", ref="4/C05",
-   text="Crash-point enumeration: for every sampled well-formed record (real writer and foreign stub, up to 64 KiB, both storage modes) EVERY truncation offset 0..len-1 is judged for dlt_message (without and with a filter) and dlt_consume_msg: must be 'incomplete', hint None or 1..=missing. The same cuts are reached dynamically by delivering clean multi-record streams through a scripted source and asserting after every arrival. Exhaustive over cut positions per record; records are sampled.",
+   text="Crash-point enumeration: for every sampled well-formed record (real writer and foreign stub, up to 64 KiB, both storage modes) EVERY truncation offset 0..len-1 is judged for dlt_message (without and with a filter) and dlt_consume_msg: must be 'incomplete', hint None or 1..=missing. The same cuts are reached dynamically by delivering clean multi-record streams through a scripted source and asserting after every arrival, with 0, 1 or 5 idle polls (the parser called again although nothing arrived) after each; every fourth enumerated prefix is handed to the parser five times in a row. Exhaustive over cut positions per record; records are sampled.",
    note="Whether the complete record parses, and whether trailing bytes matter, is C01's statement and deliberately not judged. Well-formedness of the record is checked structurally (Cutter + header decoder) before judging.",
    technique="deterministic simulation: exhaustive enumeration of the instant the stream stops (every cut offset) + scripted incremental delivery, protocol invariant 'incomplete with safe hint'"),
  "C06": dict(
@@ -48,7 +48,7 @@ CHECKS = {
    technique="deterministic simulation: scripted AsyncRead + own executor (wake order, spurious polls) under a seeded scheduler, differential oracle against the blocking reader, bounded-liveness check, replay files"),
  "C10": dict(
    level="exploration", ref="4/C10",
-   text="Seeded search over (well-formed stream x read schedule x merge history): collect_statistics runs through a fragmenting / interrupting / failing source with a recording collector (exactly one visit per record, headers equal to an independent header decoder) and with StatisticInfoCollector (equal to an independent tally as maps); the stream is split at record boundaries into 1..8 parts (empty parts allowed), 0..2 identity values are added and everything is merged along a drawn history covering all orders and associations; result must equal the whole-stream statistics.",
+   text="Seeded search over (well-formed stream x read schedule x merge history): collect_statistics runs through a fragmenting / interrupting / failing source with a recording collector (exactly one visit per record, headers equal to an independent header decoder) and with StatisticInfoCollector (equal to an independent tally as maps); streams have colliding ids, 4 % foreign-dialect records, and 1 in 200 is wide (700..1400 records over a 64-letter id alphabet); the stream is split at record boundaries into 1..8 parts (empty parts allowed), 0..2 identity values are added and everything is merged along a drawn history covering all orders and associations; result must equal the whole-stream statistics.",
    note="Streams are well-formed (C10's quantifier); after truncation / I/O error only the records wholly before the cut are judged. Vector order of the statistics is not part of the property.",
    technique="deterministic simulation: scripted Read source + seeded merge histories, reference-model oracle (header decoder + tally), replay files"),
  "C12": dict(
@@ -79,11 +79,11 @@ def main():
         "name": "dltsim",
         "path": "sim",
         "serves_properties": sorted(CHECKS.keys()),
-        "kind_free_text": "seeded deterministic simulation of byte sources, poll schedules, storage faults and merge histories around the real dlt-core readers and parsers; reference-model oracles; delta-debugging minimiser; replay files; supervisor process with run journal and CPU-time watchdog for crashes and hangs that do not unwind",
+        "kind_free_text": "seeded deterministic simulation of byte sources, poll schedules, storage faults and merge histories around the real dlt-core readers and parsers; workload shaped by swarm configurations, sequence modes and a dictionary of the literals in the sources of the crate under test; reference-model oracles; delta-debugging minimiser; replay files (materialised cases, and seeded histories where the crate keeps state across calls); supervisor process with run journal and CPU-time watchdog for crashes and hangs that do not unwind",
       }],
       "checks": [],
       "not_applicable": [{"property_id": k, "reason": v} for k, v in sorted(NA.items())],
-      "notes": "One technique family: deterministic simulation with fault injection. Exit codes of every command: 0 held, 1 VIOLATION line printed, 2 harness error. VERIF_SEED selects the batch (default fixed), VERIF_TIER overrides the tier argument. See DESIGN.md.",
+      "notes": "One technique family: deterministic simulation with fault injection. Exit codes of every command: 0 held, 1 VIOLATION line printed, 2 harness error. VERIF_SEED selects the batch (default fixed), VERIF_TIER overrides the tier argument. Sensitivity: 51 one-line mutants and 99 changes written by independent sub-agents (seeded/) are all reported by the quick tier of the property they break; 27 property-preserving changes by sub-agents (benign/) leave every check of the property they were written against silent (DESIGN.md section 13). See DESIGN.md.",
     }
     for pid, c in sorted(CHECKS.items()):
         m["checks"].append({
